@@ -142,7 +142,8 @@ check("C13",
       "shared axes are refined once each.",
       "Trusted: z3; compute_truncation (Brent) and np.geomspace are contract stubs (any l < -h/2 < h/2 < r; any strictly monotone sequence). Bounds: "
       "point counts <= 5/9 per axis, dimension <= 3, <= 3 refinements; refinement of the probability-step grid with its root search replaced by the "
-      "root contract over an abstract measure. Outside: construction of the probability-step axes, promised tail probabilities. Known findings: "
+      "root contract over an abstract measure; the real compute_truncation over abstract margins (d <= 3): every margin keeps at least the requested share "
+      "of its mass. Outside: construction of the probability-step axes. Known findings: "
       "uniform grid with a truncation closer than 2h; credit grid with threshold inside the first step / mirrored threshold beyond r.",
       TECH, "DESIGN.md section 3 C13")
 
@@ -171,10 +172,11 @@ check("C09",
       "Symbolic forward-mode AD through the real closed-form integrals of the HEM, Merton and Variance-Gamma measures (and tools.integral) with every "
       "model parameter and end point symbolic: dF/db = b^n nu(b), dF/da = -a^n nu(a) (nu = the model's own density method), F(a,a) = 0 per branch, "
       "additivity across branches and with infinite ends, straddling = sum of the sides, mass >= 0, integrate_against_xn agrees with the dedicated "
-      "functions and satisfies the same derivative identities (VG up to n = 3/5), truncated measure = integral over the intersection with vanishing "
+      "functions and satisfies the same derivative identities (VG up to n = 4/7, also on intervals ending at 0 or straddling it), CGMY mass and first moment "
+      "at the activity indices y = 0 and y = 1 (E1 / incomplete gamma with their derivative rules), truncated measure = integral over the intersection with vanishing "
       "density outside. Together with the fundamental theorem of calculus this gives F = integral of x^n nu on each branch for all parameters.",
-      "Trusted: z3; derivative rules of exp/erf/E1; exp/erf/E1/sqrt axioms; pi in (3.14159, 3.1416); the FTC meta-step. Outside: CGMY, all quad fallbacks "
-      "(n >= 3 for HEM/Merton), odd-moment signs. Attempted, not claimed: Merton second moment on [a, inf) (solver unknown).",
+      "Trusted: z3; derivative rules of exp/erf/E1; exp/erf/E1/sqrt axioms; pi in (3.14159, 3.1416); the FTC meta-step. Outside: CGMY at other activity indices (fractional / symbolic powers), all quad "
+      "fallbacks (n >= 3 for HEM/Merton), odd-moment signs. Attempted, not claimed: Merton second moment on [a, inf) (solver unknown).",
       "symbolic forward-mode AD of the real python functions + SMT (z3, cvc5 fallback) on cross-multiplied polynomial identities in UF terms", "DESIGN.md section 3 C09")
 
 check("C10",
@@ -194,7 +196,7 @@ check("C15",
       "maturity, jump and diffusion components are running sums with each variate used exactly once, refinement keeps every original (time, value) pair in "
       "order, inserted points repeat their predecessor, every step of the refined grid <= epsilon, fine and coarse arrays stay aligned.",
       "Trusted: z3; RNG model (fresh symbol per draw, Poisson counts in [0,2]); sqrt axioms. Bounds: <= 2/3 dates, <= 2 jumps per interval, gaps < 3 epsilon. "
-      "Outside: copula / coupled simulators' assembly code. Known findings: fixed-date jump component not cumulative across several dates; last gap to the "
+      "Two-component jump values in the refinement and the coupled chain's jump-time path assembly are covered; outside: copula fixed-date assembly. Known findings: fixed-date jump component not cumulative across several dates; last gap to the "
       "maturity not subdivided.",
       TECH, "DESIGN.md section 3 C15")
 
@@ -204,6 +206,8 @@ check("C08",
       "process-pool model (fork = deep copy of the reachable objects and generator state, solver-chosen contiguous chunking; os.urandom = solver-chosen pairwise distinct values): two seeded single-process "
       "runs produce syntactically identical prices (seed 7 and seed 0, both engines); for every pair of distinct samples the solver looks for clock, pid and "
       "chunk values making their payoff terms contain the same rng(seed, position) - unsat for single-process runs of both engines.",
-      "Trusted: z3; the three environment models (listed in evidence.assumptions). Bounds: <= 2/3 paths, 1-2 workers, levels 0..1, one extra pass. Outside: "
+      "Also: the pre-drawn jump counts / Brownian rows of the fixed-date simulator are pairwise distinct variates; a seeded run puts the stdlib generator "
+      "(Table sampler) in the seeded state; OS entropy reads are solver-chosen pairwise distinct values. "
+      "Trusted: z3; the environment models (listed in evidence.assumptions). Bounds: <= 2/3 paths, 1-2 workers, levels 0..1, one extra pass. Outside: "
       "python's `random` stream, jump-time mode, pools in the multilevel engine. Known finding: forked workers of the standard engine share the pre-drawn rows.",
       TECH, "DESIGN.md section 3 C08")
